@@ -118,7 +118,7 @@ fn rule_day_number(y: i64, d: &RDay) -> i64 {
 fn gen_rday(g: &mut Gen, early: bool) -> RDay {
     // "early" switch-over: February..May; "late": August..November (more than a week from 1 January either way)
     match g.rng.next() % 4 {
-        0 => RDay::J(if early { g.rng.range(40, 150) } else { g.rng.range(220, 330) }),
+        0 => RDay::J(if early { *g.rng.pick(&[58i128, 59, 60, 61, 40, 100, 150, 365 - 300]) + if g.rng.chance(1, 3) { g.rng.range(0, 60) } else { 0 } } else { g.rng.range(220, 330) }),
         1 => RDay::N(if early { g.rng.range(40, 150) } else { g.rng.range(220, 330) }),
         _ => RDay::M(if early { g.rng.range(2, 5) } else { g.rng.range(8, 11) }, g.rng.range(1, 5), g.rng.range(0, 6)),
     }
@@ -160,7 +160,7 @@ fn aim_timestamps(g: &mut Gen, ast: &TzAst, n_extra: usize) -> Vec<i128> {
     let last = ast.trans.last().map(|x| x.0).unwrap_or(-2_208_988_800);
     if let Rule::Alt { std, dst, start, start_time, end, end_time } = &ast.rule {
         for _ in 0..4 {
-            let y = g.rng.range(1900, 2500) as i64;
+            let y = if g.rng.chance(1, 2) { g.rng.range(475, 625) * 4 } else { g.rng.range(1900, 2500) } as i64;
             let s = (rule_day_number(y, start) as i128 - 719_162) * 86_400 + start_time - std;
             let e = (rule_day_number(y, end) as i128 - 719_162) * 86_400 + end_time - dst;
             for x in [s, e] { for d in [-1i128, 0, 1] { ts.push(x + d); } }
